@@ -140,11 +140,9 @@ func (s *TimeCodeSEI) Payload() []byte {
 // String returns string representation of TimeCodeSEI.
 func (s *TimeCodeSEI) String() string {
 	msgType := SEIType(s.Type())
-	msg := fmt.Sprintf("%s, size=%d, time=%s", msgType, s.Size(), s.Clocks[0].String())
-	if len(s.Clocks) > 1 {
-		for i := 1; i < len(s.Clocks); i++ {
-			msg += fmt.Sprintf(", time=%s", s.Clocks[i].String())
-		}
+	msg := fmt.Sprintf("%s, size=%d", msgType, s.Size())
+	for i := range s.Clocks {
+		msg += fmt.Sprintf(", time=%s", s.Clocks[i].String())
 	}
 	return msg
 }
